@@ -68,3 +68,39 @@ func (latches *Latches) VSnapshot() []VSlot {
 	}
 	return res
 }
+
+// scheduler glue observers / helpers for the script mode of the driver
+func (scheduler *LatchesScheduler) VLatches() *Latches      { return scheduler.latches }
+func (scheduler *LatchesScheduler) VLastRecycleTime() uint64 { return scheduler.lastRecycleTime }
+func (scheduler *LatchesScheduler) VPending() int           { return len(scheduler.unlockCh) }
+func (scheduler *LatchesScheduler) VClosed() bool {
+	scheduler.RLock()
+	defer scheduler.RUnlock()
+	return scheduler.closed
+}
+
+// VHoldSlots locks every slot mutex (run() then blocks in its first releaseSlot); the returned func unlocks them.
+func (latches *Latches) VHoldSlots() func() {
+	for i := range latches.slots {
+		latches.slots[i].Lock()
+	}
+	return func() {
+		for i := range latches.slots {
+			latches.slots[i].Unlock()
+		}
+	}
+}
+
+// VSnapshotHeld is VSnapshot for a caller that already holds every slot mutex.
+func (latches *Latches) VSnapshotHeld() []VSlot {
+	res := make([]VSlot, len(latches.slots))
+	for i := range latches.slots {
+		l := &latches.slots[i]
+		res[i].Count = l.count
+		for n := l.queue; n != nil; n = n.next {
+			res[i].Nodes = append(res[i].Nodes, VNode{Key: n.key, Max: n.maxCommitTS, Holder: n.value, SlotID: n.slotID})
+		}
+		res[i].Waiting = append([]*Lock(nil), l.waiting...)
+	}
+	return res
+}
